@@ -19,6 +19,7 @@ package builder
 import (
 	"fmt"
 	"sort"
+	"strconv"
 	"strings"
 
 	"golang.org/x/exp/maps"
@@ -338,7 +339,9 @@ func newExplainer(fontInfo *sfnt.Font) *explainer {
 		a, b := cmap.CodeRange()
 		for r := a; r <= b; r++ {
 			gid := cmap.Lookup(r)
-			if gid != 0 {
+			// %q writes non-printable runes as escape sequences, which the
+			// parser does not understand; such glyphs go by their name.
+			if gid != 0 && strconv.IsPrint(r) {
 				mappings[gid] = fmt.Sprintf("%q", string([]rune{r}))
 			}
 		}
